@@ -24,6 +24,9 @@ THEOREMS = [P + n for n in (
 TOL_MODEL = 1e-10      # exact model vs float implementation on the SAME logged states
 TOL_CROSS = 2e-7       # TEMPO vs process tensor: two different truncated contractions
 EPSREL = 1e-11
+# the same computation run twice: LAPACK/BLAS round-off can move a singular value across the relative
+# truncation threshold EPSREL, so two runs agree to a few EPSREL only (6e-12 observed), not bit-wise
+TOL_SAME = 1e-9
 
 
 # ---------------------------------------------------------------------------
@@ -268,12 +271,24 @@ class Problem:
         layout = self.case.get("layout", "C") if layout is None else layout
         return [laid_out(r, layout) for r in self.case["rho0"]]
 
-    def run_mft(self, unique=None, layout=None, chunks="case"):
+    def mft_object(self, mfs=None, unique=None, layout=None):
+        """the MeanFieldTempo of this case; `mfs`: a MeanFieldSystem object to use instead of
+        this problem's own (object re-use histories)"""
         import oqupy
         case = self.case
         unique = bool(case.get("unique", False)) if unique is None else unique
-        m = oqupy.MeanFieldTempo(self.mfs, self.baths, self.params, self.initial_states(layout),
-                                 case["a0"], start_time=case["start"], unique=unique)
+        return oqupy.MeanFieldTempo(mfs or self.mfs, self.baths, self.params,
+                                    self.initial_states(layout), case["a0"],
+                                    start_time=case["start"], unique=unique)
+
+    def compute_object(self, m):
+        case = self.case
+        dyn = m.compute(self.end if case["n"] > 0 else case["start"], progress_type="silent")
+        return _result(dyn, [], [], [])
+
+    def run_mft(self, unique=None, layout=None, chunks="case"):
+        case = self.case
+        m = self.mft_object(None, unique, layout)
         self.reset()
         chunks = case.get("chunks") if chunks == "case" else chunks
         if chunks and case["n"] > 0:
@@ -297,13 +312,13 @@ class Problem:
                          for b in self.baths]
         return self._pts
 
-    def run_cdwf(self, record_all=None, layout=None):
+    def run_cdwf(self, record_all=None, layout=None, mfs=None):
         import oqupy
         case = self.case
         pts = self.process_tensors()
         self.reset()
         dyn = oqupy.compute_dynamics_with_field(
-            self.mfs, initial_field=case["a0"], process_tensor_list=pts, dt=case["dt"],
+            mfs or self.mfs, initial_field=case["a0"], process_tensor_list=pts, dt=case["dt"],
             num_steps=case["n"], initial_state_list=self.initial_states(layout),
             start_time=case["start"],
             record_all=case["record_all"] if record_all is None else record_all,
@@ -641,6 +656,22 @@ def correspondence(res, tier, rng):
     if len(out) != len(lines):
         raise fw.Infra("driver returned %d lines for %d inputs" % (len(out), len(lines)))
 
+    # object re-use histories (real code only: a relation between runs, not a model evaluation)
+    hist = [("dt", "mft-mft", "AB"), ("dt", "mft-cdwf", "BA")]
+    if tier != "quick":
+        hist += [(v, pr, o) for v in REUSE_VARIANTS for pr in ("mft-mft", "mft-cdwf")
+                 for o in ("AB", "BA")]
+    for (variant, pair, order) in hist:
+        rc = reuse_case(rng, kind="autonomous" if variant == "start_time" else "full")
+        bad, err = _safe(lambda: reuse_history(rc, variant, pair, order))
+        res.count("object-reuse:%s/%s" % (pair, variant))
+        res.case("reuse:%s:%s:%s start=%r" % (variant, pair, order, rc["start"]), True)
+        if bad is None:
+            res.disagree("object re-use history raises " + str(err), {"case": case_to_json(rc)})
+        for _, b in bad or []:
+            res.disagree("object re-use (%s, %s, %s): %s" % (variant, pair, order, b),
+                         {"case": case_to_json(rc), "reuse": [variant, pair, order]})
+
     for e in todo:
         case, name = e["case"], e["name"]
         nontrivial = case["n"] >= 1 and case["kind"] not in ("autonomous", "stationary", "stationary-zero")
@@ -780,7 +811,7 @@ def oracle_case(res, case, tag=""):
                 dd = max(float(np.max(np.abs(np.array(mft["fields"]) - np.array(ref["fields"])))),
                          max(float(np.max(np.abs(mft["states"][i] - ref["states"][i])))
                              for i in range(len(case["dims"]))))
-                if dd > 1e-12:
+                if dd > TOL_SAME:
                     res.fail("continued-run:MeanFieldTempo",
                              {"case": cj, "diff": dd, "how": "MeanFieldTempo computed in %d compute() "
                               "calls differs by %.3g from the single call (%s)"
@@ -808,7 +839,7 @@ def oracle_case(res, case, tag=""):
             dd = max(float(np.max(np.abs(np.array(real["fields"]) - np.array(ref["fields"])))),
                      max(float(np.max(np.abs(real["states"][i] - ref["states"][i])))
                          for i in range(len(case["dims"]))))
-            if dd > 1e-12:
+            if dd > TOL_SAME:
                 res.fail("initial-state-layout:%s layout=%s" % (meth, layout),
                          {"case": cj, "diff": dd, "how": "%s started from the same density matrices in "
                           "memory layout %s (F = Fortran copy, T = transposed view, slice = strided "
@@ -850,6 +881,110 @@ def oracle_case(res, case, tag=""):
             if found:
                 break
     return found
+
+
+# -- object re-use histories ---------------------------------------------------------------
+
+REUSE_VARIANTS = ("dt", "start_time", "subdiv_limit")
+
+
+def reuse_partner(case, variant):
+    """the second computation of a re-use history: the same physical problem with another time
+    step / start time / propagator setting"""
+    b = dict(case)
+    b["chunks"] = None
+    if variant == "dt":
+        b["dt"] = case["dt"] / 2
+        b["n"] = 2 * case["n"]
+    elif variant == "start_time":
+        b["start"] = case["start"] + 0.37
+    else:
+        b["subdiv"] = "default" if case["subdiv"] is None else None
+    return b
+
+
+def _dist(x, y, nsys):
+    """None if the two results have different time axes, else the largest deviation"""
+    if x["times"] != y["times"] or len(x["fields"]) != len(y["fields"]):
+        return None
+    return max(float(np.max(np.abs(np.array(x["fields"]) - np.array(y["fields"])))),
+               max(float(np.max(np.abs(x["states"][i] - y["states"][i]))) for i in range(nsys)))
+
+
+def reuse_history(case, variant, pair, order):
+    """ONE MeanFieldSystem (and its TimeDependentSystemWithField objects) used by two computations
+    A (= case) and B (= reuse_partner): both are set up first and run afterwards in the given order
+    ("AB"/"BA"); pair "mft-mft": two MeanFieldTempo objects, "mft-cdwf": A is a MeanFieldTempo, B a
+    compute_dynamics_with_field call.  Each result must equal the same computation on fresh system
+    objects (TOL_SAME), and the MeanFieldTempo results must agree with compute_dynamics_with_field.
+    Returns a list of (which, text)."""
+    nsys = len(case["dims"])
+    case = dict(case, chunks=None)
+    cb = reuse_partner(case, variant)
+    pa, pb = Problem(case), Problem(cb)
+    shared = pa.mfs
+    ma = pa.mft_object(shared)
+    got = {}
+    if pair == "mft-mft":
+        mb = pb.mft_object(shared)
+        for w in order:
+            got[w] = pa.compute_object(ma) if w == "A" else pb.compute_object(mb)
+    else:
+        for w in order:
+            got[w] = pa.compute_object(ma) if w == "A" else pb.run_cdwf(record_all=True, mfs=shared)
+    fresh_a = Problem(case).run_mft()
+    fb = Problem(cb)
+    fresh_b = fb.run_mft() if pair == "mft-mft" else fb.run_cdwf(record_all=True)
+    bad = []
+    for w, fresh, name in (("A", fresh_a, "MeanFieldTempo (first set up)"),
+                           ("B", fresh_b, "MeanFieldTempo (second set up)" if pair == "mft-mft"
+                            else "compute_dynamics_with_field")):
+        d = _dist(got[w], fresh, nsys)
+        if d is None or d > TOL_SAME:
+            bad.append((w, "%s, run %s in the order %s on the shared system objects, %s the same "
+                        "computation on fresh system objects" % (
+                            name, "first" if order[0] == w else "second", order,
+                            "has another time axis than" if d is None else "differs by %.3g from" % d)))
+    # across methods, on the shared objects' results
+    ref_a = Problem(case).run_cdwf(record_all=True)
+    if cross_method(case, got["A"], ref_a, True):
+        bad.append(("A-cross", "MeanFieldTempo on the shared system objects differs from "
+                    "compute_dynamics_with_field: " + cross_method(case, got["A"], ref_a, True)[0]))
+    if pair == "mft-mft":
+        ref_b = Problem(cb).run_cdwf(record_all=True)
+        if cross_method(cb, got["B"], ref_b, True):
+            bad.append(("B-cross", "the second MeanFieldTempo on the shared system objects differs from "
+                        "compute_dynamics_with_field: " + cross_method(cb, got["B"], ref_b, True)[0]))
+    return bad
+
+
+def oracle_reuse(res, case, variant, pair, order):
+    bad, err = _safe(lambda: reuse_history(case, variant, pair, order))
+    if bad is None:
+        res.fail("object-reuse:raises %s" % pair, {"case": case_to_json(case), "exception": err,
+                 "reuse": {"variant": variant, "pair": pair, "order": order}})
+        return True
+    if bad:
+        key = "object-reuse:%s differing-%s" % (
+            "MeanFieldTempo/MeanFieldTempo" if pair == "mft-mft"
+            else "MeanFieldTempo/compute_dynamics_with_field", variant)
+        cb = reuse_partner(case, variant)
+        res.fail(key, {"case": case_to_json(case),
+                       "reuse": {"variant": variant, "pair": pair, "order": order},
+                       "how": "one MeanFieldSystem object shared by A (dt=%r, start_time=%r, "
+                              "subdiv_limit=%r, %d steps) and B (dt=%r, start_time=%r, subdiv_limit=%r, "
+                              "%d steps), both set up before either is run: %s"
+                              % (case["dt"], case["start"], case["subdiv"], case["n"], cb["dt"],
+                                 cb["start"], cb["subdiv"], cb["n"], "; ".join(t for _, t in bad))})
+        return True
+    return False
+
+
+def reuse_case(rng, **force):
+    kw = dict(dims=[2], n=3, kind="full", start=0.7, dt=0.1, subdiv=None, nl=1, unique=False,
+              nondiag=False, layout="C", chunks=None, record_all=True, hw=9.0)
+    kw.update(force)
+    return gen_case(rng, "quick", **kw)
 
 
 def witness_case():
@@ -902,6 +1037,14 @@ def search(res, rng=None):
         oracle_case(res, gen_case(rng, "quick", dims=[2, 3], n=n, kind="full", start=0.7, dt=0.1,
                                   subdiv=None, nl=0, unique=False, nondiag=False, layout="C",
                                   chunks=chunks, record_all=True))
+    # (c5) object re-use: one MeanFieldSystem shared by two computations set up before either runs
+    for variant in REUSE_VARIANTS:
+        for order in ("AB", "BA"):
+            oracle_reuse(res, reuse_case(rng, kind="autonomous" if variant == "start_time" else "full"),
+                         variant, "mft-mft", order)
+    for order in ("AB", "BA"):
+        oracle_reuse(res, reuse_case(rng), "dt", "mft-cdwf", order)
+        oracle_reuse(res, reuse_case(rng, dims=[2, 3], subdiv="default", nl=0), "dt", "mft-mft", order)
     # (d) fresh inputs: linear-in-time and fully time dependent equations, start_time != 0,
     #     1-3 systems, both record_all settings, field-free Hamiltonians
     for i in range(10):
@@ -927,7 +1070,9 @@ def run(tier, seed, replay):
         "methods' DEFAULT settings (nothing passed), Hamiltonians slow/fast (cos 9t) in t and linear / "
         "|a|^2 in the field, MeanFieldTempo unique in {False, True}, coupling operators diagonal / "
         "rotated by a complex unitary, initial states C / Fortran / transposed-view / strided, "
-        "MeanFieldTempo in one or 2-4 compute() calls, "
+        "MeanFieldTempo in one or 2-4 compute() calls, object re-use histories (one MeanFieldSystem "
+        "shared by two computations differing in dt / start_time / subdiv_limit, set up first, run in "
+        "both orders, vs fresh objects 1e-9 and across methods), "
         "0-2 time dependent Lindblad rates and operators per system (times handed "
         "to them logged and compared with dissArgs bit-exactly; in integrated runs against the "
         "Hamiltonian's time of the same Liouvillian), baths with dkmax 1-3.  Real "
@@ -962,8 +1107,10 @@ def run(tier, seed, replay):
     if replay:
         data = json.load(open(replay))
         case = case_from_json(data["failing_input"]["case"])
+        ru = data["failing_input"].get("reuse")
         # the oracles of the property text on this one input; no evidence file is written
-        if oracle_case(res, case):
+        if (oracle_reuse(res, case, ru["variant"], ru["pair"], ru["order"]) if isinstance(ru, dict)
+                else oracle_case(res, case)):
             seen = set()
             for key, payload in res.failing:
                 if key not in seen:
